@@ -12,7 +12,7 @@ from .c02 import default_only_when_none
 from .c09 import OPT_KEEP, octx
 
 PROP = "C16"
-FLOORS = {"C16.R1": 7, "C16.R2": 6, "C16.R3": 5, "C16.R4": 4}
+FLOORS = {"C16.R1": 7, "C16.R2": 6, "C16.R3": 5, "C16.R4": 4, "C16.R5": 2}
 META = {
     "explanation": "The statement is numerical; only what is visible without numbers is decided. Symbolic shape inference on the "
                    "symbolic terms (distinct symbols for m, n, k, the cutoff and a second right-hand-side axis) of SVD.lstsq, the "
@@ -384,3 +384,9 @@ def check(col: Collector):
     _truncation(col)
     _inverse_pairs(col)
     _finite_differences(col)
+    # the knob limits reach the solver (and the rescale_x view) through the same knob->x map as the knobs themselves
+    from . import c10
+    from .common import shared, construct_tag
+    shared(col, "C16.R5", [c10._limits],
+           select=lambda o: o.construct.startswith("MeritFunctionForMatch._get_x_limits#"),
+           why="rescale_x maps [0,1] onto the x-limits; limits converted with another factor than the knobs break the inverse pair")
